@@ -142,7 +142,7 @@ impl<'a> Session<'a> {
     /// output (e.g. `go infinite` on a forced mate iterates thousands of depths per second) is logged up to a
     /// cap and then only counted.
     fn drain_until_bestmove(&mut self, stop_after: Option<Duration>) {
-        const MAX_LOGGED: usize = 3000;
+        const MAX_LOGGED: usize = 400;
         let started = Instant::now();
         let mut stop_sent = stop_after.is_none();
         let mut logged = 0usize;
